@@ -123,6 +123,12 @@ def ds_case(c, r, live, deep, cmp):
   if limit > 0:
     cmp.eq("merge_small_dims", ints(need(ds, "merge_small_dims")(shape, limit)), r["transformed"])
   prec = need(ds, "Preconditioner")(x, bs, limit if limit > 0 else 4096, limit > 0, ptype)
+  # A sibling object is built while `prec` is alive and before it is queried: every axis with the same number
+  # of blocks but another remainder (a model builds one Preconditioner per parameter up front).  What one
+  # object announces must not depend on which other objects exist.
+  sib = tuple((d + 1 if (d // bs == (d - 1) // bs) else d - 1) if d > bs + 1 else d for d in shape)
+  if sib != shape and all(d >= 1 for d in sib):
+    need(ds, "Preconditioner")(jnp.zeros(sib), bs, limit if limit > 0 else 4096, limit > 0, ptype)
   cmp.eq("transformed_shape", ints(need(prec, "_transformed_shape")), r["transformed"])
   # -- DSPlan ----------------------------------------------------------------------------
   part = need(prec, "_partitioner")
